@@ -230,14 +230,16 @@ fn limit_case(r: &mut Rng) -> Vec<CaseOut> {
         3 => need.saturating_add(1),
         _ => u32::MAX,
     };
+    // declared uncompressed size: unknown, small, and values whose low 32 bits are tiny
+    let declared: u64 = *r.pick(&[u64::MAX, u64::MAX, 0, 100, 1 << 20, 1 << 32, (1 << 32) + 16, (1 << 33) + 4096, 1 << 40, (1 << 63) - 1]);
     let mut hdr = vec![props];
     hdr.extend_from_slice(&dict.to_le_bytes());
-    hdr.extend_from_slice(&u64::MAX.to_le_bytes());
+    hdr.extend_from_slice(&declared.to_le_bytes());
     hdr.extend_from_slice(&[0, 0, 0, 0, 0, 0x83, 0xFF, 0xFB, 0xFF, 0xFF, 0xC0, 0, 0, 0]);
     let cell = format!("limit|{}|{}", ["0", "need-1", "need", "need+1", "max"][which as usize], gen::dict_class(dict.max(4096)));
-    let desc = format!(".lzma header props={props} dict={dict:#x} need={need} KiB limit={limit} KiB");
+    let desc = format!(".lzma header props={props} dict={dict:#x} declared_size={declared:#x} need={need} KiB limit={limit} KiB");
     // very large dictionaries with a permissive limit would really be allocated: only probe the refusing side there
-    if dict > (1 << 28) && limit >= need {
+    if dict > (1 << 28) && limit >= need && declared > (1 << 28) {
         return vec![CaseOut::skip(cell, "would allocate more than 256 MiB", desc)];
     }
     let base = alloc::window_begin();
@@ -247,7 +249,17 @@ fn limit_case(r: &mut Rng) -> Vec<CaseOut> {
     match res {
         Err(p) => vec![CaseOut::viol(cell, format!("panic LZMAReader::new_mem_limit @{}", p.site()), p.short_msg(), desc)],
         Ok(Ok(())) => {
-            if limit < need {
+            // a reader was created: it must really have stayed inside the limit. (With a known small
+            // size an implementation may charge the smaller dictionary it will really allocate, so
+            // Ok with limit < need(header dictionary) is judged by what was allocated.)
+            if peak > limit as u64 * 1024 + 64 * 1024 {
+                vec![CaseOut::viol(
+                    cell,
+                    "limit-exceeded LZMAReader::new_mem_limit",
+                    format!("reader created with limit {limit} KiB but {peak} bytes were allocated (need by header: {need} KiB)"),
+                    desc,
+                )]
+            } else if limit < need && declared > (1 << 31) {
                 vec![CaseOut::viol(cell, "limit-not-enforced LZMAReader::new_mem_limit", format!("reader created although limit {limit} < need {need}"), desc)]
             } else {
                 vec![CaseOut::held(cell, true, desc)]
